@@ -239,6 +239,8 @@ class Contract:
                         raise PathEnd('exception not possible in this state')
                 self.havoc(ip, a, s.modifies if s.modifies is not None else self.modifies(ip, a))
                 for item in s.ensures:
+                    if callable(item[1]):       # evaluated on the post-state (after the havoc)
+                        item = (item[0], item[1](ip)) + tuple(item[2:])
                     self._assume_post(ip, item, 'raises:' + s.name)
                 raise PyRaise(ExcVal(s.cls, tag='from:' + short(self.qual)))
             for s in specs:
